@@ -4,6 +4,7 @@ go 1.26
 
 require (
 	github.com/evanphx/json-patch v5.9.11+incompatible
+	golang.org/x/crypto v0.37.0
 	helm.sh/helm/v4 v4.0.0-00010101000000-000000000000
 	k8s.io/apimachinery v0.32.3
 	k8s.io/cli-runtime v0.32.3
@@ -86,7 +87,6 @@ require (
 	github.com/spf13/pflag v1.0.6 // indirect
 	github.com/x448/float16 v0.8.4 // indirect
 	github.com/xlab/treeprint v1.2.0 // indirect
-	golang.org/x/crypto v0.37.0 // indirect
 	golang.org/x/net v0.38.0 // indirect
 	golang.org/x/oauth2 v0.28.0 // indirect
 	golang.org/x/sync v0.13.0 // indirect
